@@ -26,11 +26,13 @@ var (
 			"boundary): each reply is a generated sub-multiset/permutation of the outstanding IDs or the full list (as the App Engine "+
 			"proxy re-lists everything on every poll), with generated gaps, fetch/upload/backend delays so that re-listing overlaps "+
 			"every phase; oracle = counting backend (invocations per token) and uploads per ID; non-trivial = some ID listed at least "+
-			"twice; distinct = SHA-256 of the canonical case")
+			"twice; distinct = SHA-256 of the canonical case"+
+			" Later additions: empty list replies; requests whose first three response uploads are ended without an answer and which are then listed again (forwarded exactly once all the same).")
 	recB = vh.NewRecorder("C04", "server-pollers",
 		"1-16 concurrent long-pollers against the stand-alone proxy binary while 1-40 clients arrive with generated gaps; oracle = the "+
 			"multiset of IDs over all list replies has no duplicate and exactly one entry per client, fetching each yields distinct "+
-			"client tokens, each client receives the response posted under its own ID; non-trivial = at least 2 pollers and 2 clients")
+			"client tokens, each client receives the response posted under its own ID; non-trivial = at least 2 pollers and 2 clients"+
+			" Later additions: bursts of 99/100/101/130/250 clients queued before the first poll.")
 )
 
 func TestMain(m *testing.M) { vh.Main(m, recA, recB) }
